@@ -180,6 +180,13 @@ class World:
         for k, pid in enumerate(pids):
             name = (op.get("names") or {}).get(pid) or "m%03d_%s.py" % (k, re.sub(r"\W", "_", pid)[-40:])
             names[pid] = os.path.join(root, name)
+            # files may live in (nested) packages: every directory on the way gets an __init__.py
+            d = os.path.dirname(names[pid])
+            while d != root and not os.path.exists(os.path.join(d, "__init__.py")):
+                os.makedirs(d, exist_ok=True)
+                with open(os.path.join(d, "__init__.py"), "w") as f:
+                    f.write("")
+                d = os.path.dirname(d)
             with open(names[pid], "w") as f:
                 f.write(self.spec["programs"][pid])
         if root not in sys.path:
@@ -187,8 +194,23 @@ class World:
         enable = []
         from pyanalyze.error_code import ErrorCode
 
-        for code in ErrorCode:
-            enable += ["-e" if self.settings[code] else "-d", code.name]
+        if op.get("overrides") is not None:
+            # per-module option overrides through a configuration file (no -e/-d flags: the command
+            # line would take precedence over the file)
+            cfg = os.path.join(root, "verif_cfg.toml")
+            base = os.path.join(self.repo, "pyanalyze", "test.toml")
+            text = ["[tool.pyanalyze]", "extend_config = %s" % json.dumps(base), ""]
+            for module, opts in op["overrides"]:
+                text += ["[[tool.pyanalyze.overrides]]", "module = %s" % json.dumps(module)]
+                for k, v in sorted(opts.items()):
+                    text.append("%s = %s" % (k, json.dumps(v)))
+                text.append("")
+            with open(cfg, "w") as f:
+                f.write("\n".join(text))
+            enable = ["--config-file", cfg]
+        else:
+            for code in ErrorCode:
+                enable += ["-e" if self.settings[code] else "-d", code.name]
         results = {}
         try:
             if mode == "each":
